@@ -529,6 +529,11 @@ class Repo:
             if fmt is not None:
                 return struct.calcsize(fmt) if node.attr == "size" else fmt
         if isinstance(node, ast.Attribute):
+            # self.CONST / cls.CONST: a class-level constant that is never stored as an instance attribute
+            if isinstance(node.value, ast.Name) and node.value.id in ("self", "cls") and cls is not None and node.attr not in self._stored_attr_names():
+                for c in self.mro(cls):
+                    if node.attr in c.consts:
+                        return c.consts[node.attr]
             # Class.CONST or module.CONST
             if isinstance(node.value, ast.Name):
                 base = node.value.id
@@ -606,6 +611,20 @@ class Repo:
                 return UNKNOWN
             return vals
         return UNKNOWN
+
+    def _stored_attr_names(self) -> set[str]:
+        """attribute names assigned through any object anywhere in the repo (`x.name = ...`, also in tuple targets)"""
+        cached = self.__dict__.get("_stored_attrs")
+        if cached is None:
+            cached = set()
+            for m in self.modules.values():
+                for n in ast.walk(m.tree):
+                    if isinstance(n, ast.Attribute) and isinstance(n.ctx, (ast.Store, ast.Del)):
+                        cached.add(n.attr)
+                    elif isinstance(n, ast.Call) and isinstance(n.func, ast.Name) and n.func.id == "setattr" and len(n.args) >= 2 and isinstance(n.args[1], ast.Constant):
+                        cached.add(n.args[1].value)
+            self.__dict__["_stored_attrs"] = cached
+        return cached
 
     def _struct_format_of(self, e: ast.AST, mod: Module, cls: ClassInfo | None) -> str | None:
         """format string of a module-/class-level ``X = struct.Struct(<const>)`` binding named by e"""
